@@ -311,23 +311,24 @@ def v15_case(kd, em, sspec, epl, acc, ct=None, ref_m=False):
             return "sentinel"
         exp = "the sentinel"
         over = _is_byteslike(sentinel) and len(sentinel) > k
-        if ref_m is not None and _is_byteslike(got) and bytes(got) == ref_m and len(ref_m) > 0:
+        if epl > k - 11 and k >= 12 and _is_byteslike(got) and bytes(got) == b"\x00" and not over:
+            sub, txt = ("expected-len-above-max/returns-00",
+                        "expected_pt_len > k-11 (no message can have it) returns b'\\x00' instead of the sentinel")
+        elif ref_m is not None and _is_byteslike(got) and bytes(got) == ref_m and len(ref_m) > 0:
             sub, txt = "unexpected-length-returned-as-plaintext", "M does not have the expected length but was returned"
-        elif _is_byteslike(got) and len(got) > 0 and em.endswith(bytes(got)) and not (bytes(got) == b"\x00"):
+        elif _is_byteslike(got) and len(got) > 0 and em.endswith(bytes(got)):
             sub, txt = "invalid-returned-as-plaintext", "an incorrectly padded block was returned as plaintext"
         elif _is_byteslike(got) and len(got) == 0 and not _is_byteslike(sentinel):
             sub, txt = "sentinel-lost/nonbytes", "invalid padding with a non-bytes sentinel returns b'' instead of the sentinel"
         elif _is_byteslike(got) and len(got) == 0 and over:
             sub, txt = "sentinel-lost/overlong", "invalid padding with a sentinel longer than the modulus returns b'' instead of the sentinel"
-        elif epl > k - 11 and k >= 12 and _is_byteslike(got) and bytes(got) == b"\x00":
-            sub, txt = ("expected-len-above-max/returns-00",
-                        "expected_pt_len > k-11 (no message can have it) returns b'\\x00' instead of the sentinel")
         else:
             sub, txt = "invalid-other-result", "an incorrectly padded block gave neither plaintext nor the sentinel"
     if k < 12:
         # everything goes wrong in the same way for an 11-byte modulus (C decoder refuses len_em < 12)
         sub = "k11-unsupported/" + ("valid-not-decrypted" if accept else "invalid-not-sentinel")
-        txt = "11-byte modulus (RFC 8017 minimum): " + txt
+        txt = ("11-byte modulus (the RFC 8017 minimum, k - 11 = 0): the C decoder refuses encoded messages shorter than 12 bytes "
+               "and decrypt() then returns %s" % ("the sentinel" if got is sentinel else "the last byte of its zeroed buffer"))
     what = ("PKCS1_v1_5.decrypt, %d-byte modulus, EM=%s, sentinel=%s (%s), expected_pt_len=%d: returned %s, "
             "RFC 8017 reference says %s; %s" % (k, short(em), sspec, short(sentinel), epl, short(got), exp, txt))
     srepr = {"none": "None", "int": str(_INT_SENTINEL), "bytearray": "bytearray(b'\\xa5\\x5a\\xa5')"}.get(
@@ -500,14 +501,14 @@ A4 = (0x00, 0x01, 0x02, 0xFF)
 A6 = (0x00, 0x01, 0x02, 0xFF, 0x80, 0x7F)
 
 
-def oaep_variants(hl, full):
-    """(Y, index of the lHash byte to damage or None, xor value)"""
-    v = [(0, None, 0), (1, None, 0), (0x80, None, 0), (0xFF, None, 0), (1, 0, 1)]
-    pos = range(hl) if full else (0, hl // 2, hl - 1)
-    for i in pos:
+def oaep_variants(hl, sel):
+    """(Y, index of the lHash byte to damage or None, xor value); sel: 'min' (3) | 'few' (10) | 'full' (7+hLen)"""
+    v = [(0, None, 0), (1, None, 0), (0, 0, 0x01)]
+    if sel == "min":
+        return v
+    v += [(0x80, None, 0), (0xFF, None, 0), (1, 0, 1), (0, 0, 0x80), (0, hl - 1, 0x80)]
+    for i in (range(1, hl) if sel == "full" else (hl // 2, hl - 1)):
         v.append((0, i, 0x01))
-    v.append((0, 0, 0x80))
-    v.append((0, hl - 1, 0x80))
     return v
 
 
@@ -572,9 +573,10 @@ def oaep_worker(shards):
             for idx, rest in enumerate(long_rests(r)):
                 if idx % nparts != part:
                     continue
-                # Y / lHash variants only where the rest is valid or at the boundary positions
-                vs = variants if (idx == 0 or rest.find(b"\x01") in (0, 1, r - 1) and rest[:rest.find(b"\x01")] == bytes(rest.find(b"\x01"))) \
-                    else variants[:2]
+                # all Y / lHash variants where the rest is valid with the separator at a boundary position
+                # (and for the all-zero rest); otherwise Y in {00, 01} and one damaged lHash
+                p1 = len(rest) - len(rest.lstrip(b"\x00"))
+                vs = variants if (idx == 0 or (p1 in (0, 1, r - 1) and rest[p1] == 1)) else variants[:3]
                 for (y, di, dx) in vs:
                     em = oaep_em(kd, cfg, y, (di, dx), rest, acc)
                     if em is None:
@@ -592,8 +594,6 @@ def oaep_worker(shards):
                 if em is None:
                     continue
                 for other in [cfg] + list(others):
-                    if kd["k"] < R.hash_len(cfg_ref(other)[0]) + 2 and False:
-                        continue
                     acc.count("evaluations")
                     res, fails = oaep_case(kd, other, em, acc)
                     acc.seen("classes", ("oaep-cross", k, cfg_str(cfg), cfg_str(other), tuple(fails), res))
@@ -684,35 +684,30 @@ def c_v15_worker(shards):
 # ---------------------------------------------------------------------------
 # part c-oaep: the C decoder oaep_decode through its binding
 # ---------------------------------------------------------------------------
-def c_oaep_case(hn, y, lh_given, db, acc):
-    """oaep_decode(em, lHash, db) where em is the masked form of (Y, seed, db): the reference decides on
-    the complete EM with label b'' (lh_given is what the caller claims H(label) to be)"""
+def c_oaep_case(hn, y, label, db, acc):
+    """oaep_decode(em, H(label), db) where em is the masked form of (Y, seed, db); the reference decides on
+    the complete EM for that label"""
     from Crypto.Cipher._pkcs1_oaep_decode import oaep_decode
     hl = R.hash_len(hn)
     k = len(db) + hl + 1
     seed = bytes(0x30 + (i & 7) for i in range(hl))
     em = forge_oaep(k, y, seed, db, hn, hn)
-    true_lh = hashlib.new(hn, b"").digest()
-    if lh_given == true_lh:
-        ref_m, fails = R.eme_oaep_decode_ex(em, k, b"", hn, hn)
-    else:
-        # the caller's lHash differs from H(b''): model it by exchanging the roles (DB must start with lh_given)
-        db2 = (true_lh if db[:hl] == lh_given else (bytes(hl) if true_lh != bytes(hl) else b"\x01" * hl)) + db[hl:]
-        ref_m, fails = R.eme_oaep_decode_ex(forge_oaep(k, y, seed, db2, hn, hn), k, b"", hn, hn)
-    ret = oaep_decode(em, lh_given, db)
-    case = {"part": "c-oaep", "hn": hn, "y": y, "lh": lh_given, "db": db}
+    lh = hashlib.new(hn, label).digest()
+    ref_m, fails = R.eme_oaep_decode_ex(em, k, label, hn, hn)
+    ret = oaep_decode(em, lh, db)
+    case = {"part": "c-oaep", "hn": hn, "y": y, "label": label, "db": db}
     if not fails:
         if ret > 0 and db[ret:] == ref_m:
             return "plaintext", fails
         sub = "valid-rejected" if ret <= 0 else "wrong-plaintext"
         acc.violation("C07/c-oaep/" + sub, "oaep_decode(Y=%02x, lHash=%s, DB=%s) returned %d; RFC 8017 7.1.2 decodes it to %s"
-                      % (y, short(lh_given), short(db), ret, short(ref_m)), case)
+                      % (y, short(lh), short(db), ret, short(ref_m)), case)
         return sub, fails
     if ret <= 0:
         return "rejected", fails
     sub = "%s-accepted" % fails[0].replace("_", "-")
     acc.violation("C07/c-oaep/" + sub, "oaep_decode(Y=%02x, lHash=%s, DB=%s) returned %d (accept) although RFC 8017 7.1.2 "
-                  "rejects it: %s" % (y, short(lh_given), short(db), ret, ",".join(fails)), case)
+                  "rejects it: %s" % (y, short(lh), short(db), ret, ",".join(fails)), case)
     return sub, fails
 
 
@@ -722,11 +717,12 @@ def c_oaep_worker(shards):
         kind, hn = sh[0], sh[1]
         hl = R.hash_len(hn)
         lh = hashlib.new(hn, b"").digest()
-        other = hashlib.new(hn, b"other label").digest()
+        olab = b"other label"
+        other = hashlib.new(hn, olab).digest()
         n = 0
         if kind == "short":
-            _, _, r, alpha, first_vals, full = sh
-            variants = oaep_variants(hl, full)
+            _, _, r, alpha, first_vals, vsel = sh
+            variants = oaep_variants(hl, vsel)
             for first in first_vals:
                 for t in itertools.product(alpha, repeat=r - 1):
                     rest = bytes((first,) + t)
@@ -734,25 +730,25 @@ def c_oaep_worker(shards):
                         l2 = bytearray(lh)
                         if di is not None:
                             l2[di] ^= dx
-                        res, fails = c_oaep_case(hn, y, lh, bytes(l2) + rest, acc)
+                        res, fails = c_oaep_case(hn, y, b"", bytes(l2) + rest, acc)
                         n += 1
                         acc.seen("classes", ("c-oaep", hn, min(r, 9), tuple(fails), res))
                         acc.count("c_oaep_accept" if res == "plaintext" else "c_oaep_reject")
                     # the caller's lHash is for another label than the one the DB was made for, and vice versa
-                    for given, indb in ((other, lh), (other, other)):
+                    for given, indb in ((olab, lh), (olab, other)):
                         res, fails = c_oaep_case(hn, 0, given, indb + rest, acc)
                         n += 1
                         acc.seen("classes", ("c-oaep-label", hn, min(r, 9), tuple(fails), res))
                         acc.count("c_oaep_accept" if res == "plaintext" else "c_oaep_reject")
         elif kind == "long":
             _, _, r = sh
-            variants = oaep_variants(hl, True)
+            variants = oaep_variants(hl, "full")
             for idx, rest in enumerate(long_rests(r)):
-                for (y, di, dx) in (variants if idx % 7 == 0 or idx < 40 else variants[:2]):
+                for (y, di, dx) in (variants if idx % 7 == 0 or idx < 40 else variants[:3]):
                     l2 = bytearray(lh)
                     if di is not None:
                         l2[di] ^= dx
-                    res, fails = c_oaep_case(hn, y, lh, bytes(l2) + rest, acc)
+                    res, fails = c_oaep_case(hn, y, b"", bytes(l2) + rest, acc)
                     n += 1
                     acc.seen("classes", ("c-oaep", hn, "long%d" % r, tuple(fails), res))
                     acc.count("c_oaep_accept" if res == "plaintext" else "c_oaep_reject")
@@ -888,7 +884,7 @@ def rt_v15_case(kd, msg, tape_bytes, mtype, acc):
                               pre + ": decrypt(encrypt(m)) raised %s: %s" % (type(ex).__name__, ex), case)
                 return "rt-exc"
             if got != msg or type(got) is not bytes:
-                sub = "k11-unsupported/roundtrip" if k < 12 else "roundtrip-differs"
+                sub = "k11-unsupported/valid-not-decrypted" if k < 12 else "roundtrip-differs"
                 acc.violation("C07/v15/" + sub, pre + ": decrypt(encrypt(m), sentinel=%s, expected_pt_len=%d) = %s, m = %s"
                               % (sspec, epl, short(got), short(msg)), case)
                 res = sub
@@ -952,6 +948,7 @@ def ct_case(kd, scheme, cfg, ct, acc):
     k = kd["k"]
     case = {"part": "ct", "key": pubpart(kd), "scheme": scheme, "cfg": list(cfg) if cfg else None, "ct": ct}
     c = R.os2ip(ct)
+    m = None
     if len(ct) != k:
         exp = "ValueError:length"
     elif c >= kd["n"]:
@@ -982,9 +979,9 @@ def ct_case(kd, scheme, cfg, ct, acc):
                       "%s decrypt (%d-byte modulus) of a %d-byte ciphertext %s raised %s: %s (documented: ValueError)"
                       % (scheme, k, len(ct), short(ct), type(ex).__name__, ex), case)
         return exp, type(ex).__name__
-    if exp.split(":")[0] != res or (res == "plaintext" and (got != m or k < 12)):
+    if exp.split(":")[0] != res or (res == "plaintext" and got != m):
         if k < 12 and scheme == "v15" and len(ct) == k and c < kd["n"]:
-            sub = "k11-unsupported/in-range-ciphertext"
+            sub = "k11-unsupported/" + ("valid-not-decrypted" if exp == "plaintext" else "invalid-not-sentinel")
         elif exp == "ValueError:length":
             sub = "wrong-length-ciphertext-accepted"
         elif exp == "ValueError:range":
@@ -1101,14 +1098,14 @@ def run(ctx):
     # ---- c-v15 -----------------------------------------------------------------
     sh = []
     hdr_vals = (0x00, 0x01, 0x02, 0xFF)
-    full_L = range(11, 15) if q else range(11, 19)
+    full_L = range(11, 16) if q else range(11, 19)
     for L in full_L:
         for b0 in hdr_vals:
             for b1 in hdr_vals:
                 for lo, hi in split_range(1 << (L - 2), 1 << max(0, L - 2 - 14)):
                     sh.append((L, b0, b1, None, lo, hi, (0, 1, L, L + 1)))
     if q:
-        for L in (15, 16):                       # good header only, two sentinel lengths
+        for L in (16, 17):                       # good header only, two sentinel lengths
             for lo, hi in split_range(1 << (L - 2), 4):
                 sh.append((L, 0, 2, None, lo, hi, (0, 1)))
     for L in (12, 13):                           # other non-zero filler values
@@ -1116,22 +1113,22 @@ def run(ctx):
             sh.append((L, 0, 2, fill, 0, 1 << (L - 2), (0, 1, L, L + 1)))
     grid["c-v15"] = ("len %d..%d x header {00,01,02,FF}^2 x all zero subsets x expected_pt_len 0..len-10 x sentinel len {0,1,len,len+1}"
                      % (full_L[0], full_L[-1])) + (
-        "; len 15,16 x header 00 02 x all zero subsets x expected_pt_len 0..len-10 x sentinel len {0,1}" if q else "") + \
+        "; len 16,17 x header 00 02 x all zero subsets x expected_pt_len 0..len-10 x sentinel len {0,1}" if q else "") + \
         "; len 12,13 x fillers {01,80,FF}"
     timed("c-v15", c_v15_worker, [[s] for s in sh])
 
     # ---- c-oaep ----------------------------------------------------------------
     sh = []
     for hn in (("md5", "sha1") if q else ("md5", "sha1", "sha256")):
-        sh.append([("short", hn, 1, (), tuple(range(256)), True)])
+        sh.append([("short", hn, 1, (), tuple(range(256)), "full")])
         for lo in range(0, 256, 16):
-            sh.append([("short", hn, 2, tuple(range(256)), tuple(range(lo, lo + 16)), False)])
+            sh.append([("short", hn, 2, tuple(range(256)), tuple(range(lo, lo + 16)), "min" if q else "few")])
         for r in range(2, (6 if q else 8) + 1):
             for first in A4:
-                sh.append([("short", hn, r, A4, (first,), r <= 5)])
+                sh.append([("short", hn, r, A4, (first,), "full" if r <= (4 if q else 5) else "few")])
         for r in (3, 4) if q else (3, 4, 5):
             for first in A6:
-                sh.append([("short", hn, r, A6, (first,), False)])
+                sh.append([("short", hn, r, A6, (first,), "few")])
         for r in ((23,) if q else (23, 63, 87)):
             sh.append([("long", hn, r)])
     grid["c-oaep"] = ("hash {md5,sha1%s} x DB-after-lHash: all 256 / 65536 strings of 1 / 2 bytes, all strings over {00,01,02,FF} "
@@ -1144,8 +1141,7 @@ def run(ctx):
     sh = []
     sents = SENTINELS
     # 11-byte modulus (smallest RFC 8017 allows), 12-byte modulus: every subset of zero positions
-    for kname, hdrs in (("k11", ((0, 2),)), ("k12", ((0, 2), (0, 1), (1, 2)) if q else
-                                              tuple(itertools.product(hdr_vals, repeat=2)))):
+    for kname, hdrs in (("k11", ((0, 2),)), ("k12", tuple(itertools.product(hdr_vals, repeat=2)))):
         k = keys[kname]["k"]
         for hdr in hdrs:
             for lo, hi in split_range(1 << (k - 2), 8 if (q or hdr != (0, 2)) else 16):
@@ -1154,7 +1150,7 @@ def run(ctx):
         k = keys["k16"]["k"]
         for lo, hi in split_range(1 << (k - 2), 64):
             sh.append([("subsets", "k16", (0, 2), lo, hi, ("S", "none"))])
-    pos_keys = ("k12", "k34", "k35", "k128") if q else ("k12", "k16", "k34", "k35", "k48", "k64", "k128", "k128e3", "k129")
+    pos_keys = ("k12", "k34", "k35", "k64", "k128", "k129") if q else ("k12", "k16", "k34", "k35", "k48", "k64", "k128", "k128e3", "k129")
     for kname in pos_keys:
         k = keys[kname]["k"]
         big = k > 64
@@ -1168,7 +1164,7 @@ def run(ctx):
     grid["v15"] = ("keys k11,k12%s: header %s x all zero subsets x expected_pt_len 0..k-10,k+5 x sentinels; keys %s: first zero at "
                    "every index 2..k-1 or absent x message patterns %s x expected_pt_len {0,1,|M|-1,|M|,|M|+1,k-11,k-10,k+5} x "
                    "sentinels %s; 8 damaged headers x first zero {2,9,10,11,k-1,none}"
-                   % ("" if q else ",k16", "{00 02, 00 01, 01 02}" if q else "{00,01,02,FF}^2", ",".join(pos_keys),
+                   % ("" if q else ",k16", "{00,01,02,FF}^2 (k12; sentinels {S,None} for damaged headers in quick)", ",".join(pos_keys),
                       "/".join(MSGPATS), "/".join(SENTINELS)))
     timed("v15", v15_worker, sh)
 
@@ -1178,20 +1174,20 @@ def run(ctx):
     md5 = ["md5", None, None, False]
     sha1 = ["sha1", None, None, False]
     sha256 = ["sha256", None, None, False]
-    V = lambda hn, full=True: tuple(oaep_variants(R.hash_len(hn), full))
+    V = lambda hn, sel="full": tuple(oaep_variants(R.hash_len(hn), sel))
     # k34/MD5: DB after lHash is one byte: all 256 values; k35/MD5: two bytes
     sh.append([("short", "k34", md5, (), tuple(range(256)), V("md5"))])
     if q:
-        sh += [[("short", "k35", md5, A6 + (0x03, 0xFE), (f,), V("md5", False))] for f in A6 + (0x03, 0xFE)]
+        sh += [[("short", "k35", md5, A6 + (0x03, 0xFE), (f,), V("md5", "few"))] for f in A6 + (0x03, 0xFE)]
     else:
-        sh += [[("short", "k35", md5, tuple(range(256)), tuple(range(lo, lo + 4)), V("md5", False)[:6])] for lo in range(0, 256, 4)]
+        sh += [[("short", "k35", md5, tuple(range(256)), tuple(range(lo, lo + 4)), V("md5", "few")[:6])] for lo in range(0, 256, 4)]
     # k48/SHA-1: 7 bytes
     if q:
-        sh += [[("short", "k48", sha1, A4[:3], (f,), V("sha1", False)[:6])] for f in A4]
+        sh += [[("short", "k48", sha1, A4[:3], (f,), V("sha1", "few")[:6])] for f in A4]
     else:
-        sh += [[("short", "k48", d, A4, (f, ), V("sha1", False)[:7])] for f in A4]
-        sh += [[("short", "k48", ["md5", "sha1", b"L", True], A4[:2], (f, ), V("md5", False)[:3])] for f in A4[:2]]   # 15 bytes over {00,01}
-    longs = [("k64", sha1), ("k128", sha256)] if q else \
+        sh += [[("short", "k48", d, A4, (f, ), V("sha1", "few")[:7])] for f in A4]
+        sh += [[("short", "k48", ["md5", "sha1", b"L", True], A4[:2], (f, ), V("md5", "min"))] for f in A4[:2]]   # 15 bytes over {00,01}
+    longs = [("k64", sha1), ("k128", sha256), ("k129", d)] if q else \
         [("k64", sha1), ("k64", ["md5", "sha256", b"L", False]), ("k64", sha256), ("k128", sha1), ("k128", sha256),
          ("k128e3", ["sha1", "sha256", asc(64, 0x41), True]), ("k129", d), ("k129", sha256), ("k128", ["sha384", None, None, False])]
     for kname, cfg in longs:
@@ -1211,7 +1207,7 @@ def run(ctx):
 
     # ---- round trips ------------------------------------------------------------------
     sh = []
-    rt_keys = ("k34", "k35", "k48", "k64", "k128", "k129") if not q else ("k34", "k35", "k48", "k64", "k128")
+    rt_keys = ("k34", "k35", "k48", "k64", "k128", "k129")
     nconf = 0
     for kname in rt_keys + (("k128e3",) if not q else ()):
         k = keys[kname]["k"]
@@ -1226,7 +1222,7 @@ def run(ctx):
                 sh.append([("oaep", kname, cfg, lc, 2 if q else 6)])
         for cfg in too_small_configs(k):
             sh.append([("oaep", kname, cfg, [0, 1, k], 1)])
-    v15_keys = ("k11", "k12", "k34", "k35", "k128") if q else ("k11", "k12", "k16", "k34", "k35", "k48", "k64", "k128", "k128e3", "k129")
+    v15_keys = ("k11", "k12", "k34", "k35", "k64", "k129") if q else ("k11", "k12", "k16", "k34", "k35", "k48", "k64", "k128", "k128e3", "k129")
     for kname in v15_keys:
         k = keys[kname]["k"]
         mx = k - 11
@@ -1257,7 +1253,7 @@ def run(ctx):
     # ---- vacuity guards / evidence -----------------------------------------------------------
     n = a.n
     cl = a.distinct.get("classes", set())
-    ctx.require(n.get("c_v15_accept", 0) > 1000 and n.get("c_v15_reject", 0) > 1000,
+    ctx.require(n.get("c_v15_accept", 0) > 500 and n.get("c_v15_reject", 0) > 1000,
                 "c-v15: both verdicts must be frequent (accept %d, reject %d)" % (n.get("c_v15_accept", 0), n.get("c_v15_reject", 0)))
     ctx.require(n.get("c_oaep_accept", 0) > 1000 and n.get("c_oaep_reject", 0) > 1000,
                 "c-oaep: both verdicts must be frequent (accept %d, reject %d)" % (n.get("c_oaep_accept", 0), n.get("c_oaep_reject", 0)))
@@ -1321,7 +1317,7 @@ def replay(case, acc):
     elif part == "c-v15":
         c_v15_case(case["em"], case["slen"], case["epl"], acc)
     elif part == "c-oaep":
-        c_oaep_case(case["hn"], case["y"], case["lh"], case["db"], acc)
+        c_oaep_case(case["hn"], case["y"], case["label"], case["db"], acc)
     elif part == "rt-oaep":
         rt_oaep_case(kd, case["cfg"], case["msg"], case["seed"], case["mtype"], acc)
     elif part == "rt-v15":
